@@ -51,6 +51,28 @@ def main() -> int:
     timer = vlib.Timer()
 
     ev_path = VERIF / "evidence" / f"{prop}.json"
+
+    # watchdog: a check that does not come to an end reports that instead of hanging (the implementation may loop)
+    import threading
+    limit = int(os.environ.get("VERIF_WATCHDOG_S", 1800 if tier == "quick" else 3 * 3600))
+
+    def _expired():
+        rp = VERIF / "replays" / prop / "unfinished.json"
+        try:
+            vlib.write_json(rp, {"property": prop, "seed": seed, "tier": tier,
+                                 "note": f"the check did not finish within {limit} s: some run of the implementation or of the model does not "
+                                         "terminate within the harness limits; the property is not shown to hold"})
+            vlib.write_json(ev_path, {"property_id": prop, "tier": tier, "seed": seed, "level": "proof",
+                                      "coverage": {"discharged": 0, "obligations_unchecked": 0, "checker_cmd": "watchdog",
+                                                   "trusted_base": TRUSTED_BASE, "notes": ["the check was stopped by its watchdog"]},
+                                      "assumptions": [], "wall_s": timer.s(), "violations": 1})
+        finally:
+            print(f"VIOLATION property={prop} replay={rp} no-failing-input-found", flush=True)
+            os._exit(1)
+
+    wd = threading.Timer(limit, _expired)
+    wd.daemon = True
+    wd.start()
     status = B.build()
     thm = B.property_theorems(prop)
 
